@@ -1348,7 +1348,8 @@ int safec_vsnprintf_s(out_fct_type out, const char *funcname, char *buffer,
                     invoke_safe_str_constraint_handler(msg, buffer, ESNULLP);
                     return -(ESNULLP);
                 }
-                l = safec_strnlen_s(p, precision ? precision : (size_t)-1);
+                l = safec_strnlen_s(p, (flags & FLAGS_PRECISION) ? precision
+                                                                 : (size_t)-1);
             }
             if (l + idx > bufsize) {
                 char msg[80];
